@@ -20,6 +20,7 @@ def dispatch (line : String) : String :=
   | "WN" :: toks => Drv.DeadlineD.handleWait toks
   | "SI" :: toks => Drv.DeadlineD.handleSelII toks
   | "SS" :: toks => Drv.SessionD.handle toks
+  | "SG" :: toks => Drv.SessionD.handleF toks
   | "IA" :: toks => Drv.IaD.handle toks
   | "RP" :: toks => Drv.ReplD.handle toks
   | "RC" :: toks => Drv.ReplD.handleClean toks
